@@ -60,6 +60,22 @@ CHECKS["C09"] = dict(
          "(quick), full depth 2 = 144k programs (thorough). Unsorted map iteration is excluded (Go map order).",
     technique="TLA+ executable specification enumerated by TLC + exhaustive replay with event-level comparison", ref="DESIGN.md §3 C09")
 
+CHECKS["C12"] = dict(
+    text="PongoRender.tla models the environment as a stack of scopes over the caller's context over the globals; TLC enumerates every nesting "
+         "to depth 3 of 17 scoping and non-scoping constructs over two colliding names with probes before/inside/after each, checks that "
+         "every render leaves the scope stack balanced, and predicts the exact probe output; the real engine must print the same, and the "
+         "harness deep-compares the caller's Context and the set's Globals around every execution. API rules (non-identifier keys, macro "
+         "clash, context over globals) are a further family.",
+    note="Trusted: TLC, AST printer, reflect-free snapshot (%#v) of Context/Globals. Macro bodies run in a child of the defining scope (modelled as observed and documented in DESIGN.md).",
+    technique="TLA+ executable specification enumerated by TLC + exhaustive replay with event-level comparison", ref="DESIGN.md §3 C12")
+CHECKS["C13"] = dict(
+    text="PongoRender.tla's macro part (positional binding, defaults evaluated in the defining scope, markup result, depth guard on every "
+         "entry, import = bind under alias) is enumerated over all signatures x default subsets x argument counts x {local, import, alias}; "
+         "TLC checks ImportEqualsLocal and RecursionBounded on the model; every program is replayed with event comparison, and every "
+         "unbounded-recursion call graph (1..3 macros, local and imported) runs in its own process and must end in an execution error.",
+    note="Trusted: TLC, harness printer, process isolation with a lowered stack limit. MaxMacroDepth 6 (model) vs 1000 (code).",
+    technique="TLA+ executable specification enumerated by TLC + exhaustive replay; isolated-process replay for recursion", ref="DESIGN.md §3 C13")
+
 PENDING = {}
 
 def main():
